@@ -1,4 +1,4 @@
 SPECIFICATION Spec
-CONSTANTS MaxDepth = 2 TofDepth = 1 Level = 1
+CONSTANTS Level = 1
 INVARIANTS InvCoherent InvSize InvT1 InvT2 InvT3 InvRead
 CHECK_DEADLOCK FALSE
